@@ -49,6 +49,17 @@ def stepListen (toks : List String) : Option String :=
         let rebind := if s.ls.all (fun l => !l.sockOpen) then "ok" else "busy"
         some s!"returned={returned} err={cls} rebind={rebind}"
     | _, _, _, _ => some "bad-op"
+  | ["listenburst", ns, rs, _rep] =>
+    -- every listener of `n` addresses fails to bind, `rounds` independent starts: each one returns
+    -- the bind error (NV.C16.bind_error_reported holds on every schedule, so one canonical run decides)
+    match ns.toNat?, rs.toNat? with
+    | some n, some rounds =>
+      if n = 0 ∨ n > 4 ∨ rounds = 0 then some "bad-op"
+      else
+        let s := listenRun (rank0 n) (init (2 * n)) (List.replicate (2 * n) true)
+        let ok := s.mpc = .returned .bind ∧ s.ls.all (fun l => !l.sockOpen)
+        some s!"returned={if ok then rounds else 0}/{rounds} err=bind rebind=ok"
+    | _, _ => some "bad-op"
   | _ => none
 where
   /-- more steps than the ranking function of NV.C16 allows (6 per listener + 4) -/
